@@ -303,7 +303,7 @@ def gen_scheduler_case(rng, tier):
         perm = [0, 1, 2]
         rng.shuffle(perm)
         s = {"bounds": [bs[p] for p in perm], "ops": [_ident_ops([[r[p] for p in perm] for r in o["A"]]) for o in s["ops"]]}
-    return sched_case(t, s, gen_checks(rng, 3), idx, default)
+    return sched_case(t, s, gen_checks(rng, 3, 2), idx, default)
 
 
 # the three infeasible workloads of the seeded-change notes + a feasible control, always in the stream
@@ -388,7 +388,7 @@ class C16(SchedProp):
             yield gen_pass_conv_case(rng)
 
     def oracle(self, case, impl_out):
-        out = []
+        out = self.purity_violations(impl_out)
         kind = case["kind"]
         if "raised" in impl_out:
             return out
